@@ -443,6 +443,21 @@ func queryC09(trak *mp4.TrakBox, t *tables, q []string) string {
 			}
 			return strings.Join(s, "/")
 		})
+	case "seq":
+		// every per-sample query on ONE object, in the caller's order
+		for _, f := range strings.Split(q[1], ",") {
+			i := atoi(f)
+			l = append(l, pstr(func() string { d, u := stbl.Stts.GetDecodeTime(uint32(i)); return fmt.Sprintf("%d:%d", d, u) })+";"+
+				pstr(func() string { return fmt.Sprint(stbl.Stts.GetDur(uint32(i))) })+";"+
+				pstr(func() string {
+					if stbl.Ctts == nil {
+						return "-"
+					}
+					return fmt.Sprint(stbl.Ctts.GetCompositionTimeOffset(uint32(i)))
+				})+";"+
+				pstr(func() string { return fmt.Sprint(stbl.Stsz.GetSampleSize(i)) })+";"+
+				pstr(func() string { c, f, _ := stbl.Stsc.ChunkNrFromSampleNr(i); return fmt.Sprintf("%d:%d", c, f) }))
+		}
 	case "sdata":
 		a, b := atoi(q[1]), atoi(q[2])
 		return pstr(func() string {
@@ -740,6 +755,43 @@ func genC09(c *Ctx) {
 							g = fmt.Sprint(k)
 						}
 						checkNrAt(c, pre, e, uint64(x), g, total)
+					}
+				}
+			}
+		}
+		// the same per-sample queries on one object in other orders than ascending: descending, and a random walk
+		// with repeats (a lookup must not depend on the lookups made before it)
+		{
+			var orders [][]int
+			var desc []int
+			for i := n; i >= 1 && len(desc) < 300; i-- {
+				desc = append(desc, i)
+			}
+			orders = append(orders, desc)
+			var rnd []int
+			for k := 0; k < minInt(3*n, 300); k++ {
+				rnd = append(rnd, 1+c.R.Intn(n))
+			}
+			orders = append(orders, rnd)
+			for _, ord := range orders {
+				var qs, ws []string
+				for _, i := range ord {
+					qs = append(qs, fmt.Sprint(i))
+				}
+				got := strings.Split(run("seq "+strings.Join(qs, ",")), ",")
+				for k, i := range ord {
+					if k >= len(got) {
+						break
+					}
+					g := strings.Split(got[k], ";")
+					cto := "-"
+					if t.hasCtts {
+						cto = fmt.Sprint(e.cto[i-1])
+					}
+					ws = []string{fmt.Sprintf("%d:%d", e.dec[i-1], e.dur[i-1]), fmt.Sprint(e.dur[i-1]), cto, fmt.Sprint(e.size[i-1])}
+					if len(g) < 4 || g[0] != ws[0] || g[1] != ws[1] || g[2] != ws[2] || g[3] != ws[3] {
+						c.Fail("C09-query-order", fmt.Sprintf("per-sample queries made in another order than ascending differ from the table expansion (sample %d, position %d of the sequence)", i, k), pre+"seq "+strings.Join(qs, ","), got[k], strings.Join(ws, ";"))
+						break
 					}
 				}
 			}
